@@ -12,7 +12,9 @@ From MZ.lib Require Import Mach.
 From MZ.spec Require Import DeflateSpec.
 From MZ.gen Require Import GenZlib.
 From MZ.model Require Import DeflateCore.
-From MZ.proofs Require Import DeflateFlags StoredSpec StoredRoundtrip.
+From MZ.lib Require Import Arr.
+From MZ.model Require InflateCore.
+From MZ.proofs Require Import DeflateFlags StoredSpec StoredRoundtrip StoredEndToEnd.
 Import ListNotations.
 Local Open Scope Z_scope.
 
@@ -51,3 +53,18 @@ Example C01_level0_returns_a_vector :
   | _ => False
   end.
 Proof. vm_compute. reflexivity. Qed.
+
+(* ... and with the decoder modelled too: M_inf applied to what the compressor model produced (raw format,
+   level 0) gives back the input - decompress (compress data) = data on the two executable models *)
+Theorem C01_level0_raw_roundtrip_on_both_models_partial :
+  forall (data : list N) (cflags iflags : N) (out : list N) (o : arr) (res : InflateCore.call_result),
+  hasf cflags FLAG_RAW = true -> hasf cflags FLAG_ZLIB = false -> bytes_ok data ->
+  compress_to_vec_inner data cflags = Ret (VBytes out) ->
+  InflateCore.has iflags InflateCore.F_ZLIB = false -> InflateCore.has iflags InflateCore.F_STOPBB = false ->
+  InflateCore.has iflags InflateCore.F_NONWRAP = true ->
+  (N.of_nat (length data) <= alen o)%N -> (alen o <= USIZE_MAX)%N ->
+  InflateCore.decompress InflateCore.dec_default out o 0 USIZE_MAX iflags = Ret res ->
+  InflateCore.cr_status res = InflateCore.Done /\ InflateCore.cr_in res = N.of_nat (length out) /\
+  InflateCore.cr_out res = N.of_nat (length data) /\
+  aget_list (InflateCore.cr_buf res) 0 (InflateCore.cr_out res) = data.
+Proof. exact level0_raw_model_roundtrip. Qed.
